@@ -205,10 +205,22 @@ def c06(tier):
             corpus.append(gen.box(w, 1, "sharp", "ab") + "\n" + " " * r.randint(0, 3) + tg)
         else:
             corpus.append(gen.box(w + 2, 2, "sharp", tg) + "  " + r.choice(["o--", "*", "+--+"]))
+    # a tab between two things on one line is one blank cell wherever the line starts
+    corpus += ["+--+\t+--+\n|  |\t|  |\n+--+\t+--+", "---\t--->", "a\tb\t\tc", "|\t|\n+-\t-+", "\t/\n/\t"]
     groups = []
     for t in corpus:
         g = [({"input": t}, None)]
         offs = [(r.randint(0, 8), r.randint(0, 8)), (r.randint(0, 60), r.randint(0, 30))]
+        # one offset that puts a cell of the drawing right before / at a multiple of a power of two in both directions
+        # (block-wise processing, tiles, bit masks)
+        cells_ = [(x, y) for y, row in enumerate(t.split("\n")) for x, ch in enumerate(row) if ch not in " \t"]
+        if cells_:
+            cx, cy = r.choice(cells_)
+            M = r.choice([8, 16, 32, 64, 64, 64, 128, 256])
+            kk = M * r.randint(1, max(1, 384 // M)) - r.choice([0, 1]) - cx
+            nn2 = M * r.randint(1, max(1, 192 // M)) - r.choice([0, 1]) - cy
+            if kk >= 0 and nn2 >= 0:
+                offs.append((kk, nn2))
         # one far offset per base: f32 geometry at large magnitudes
         offs.append(r.choice([(r.randint(250, 400), r.randint(0, 20)), (r.randint(0, 20), r.randint(126, 200)),
                               (r.randint(200, 400), r.randint(100, 200))]))
@@ -352,11 +364,15 @@ def c11(tier):
         wd = len(tg) + r.choice([0, 2, 4])
         # a box whose top edge is drawn with underscores: the tag sits in the first row under it
         tagged.append(" " + "_" * wd + "\n|" + tg.ljust(wd) + "|\n|" + "_" * wd + "|")
+        # a tag or a word next to lines that carry markers (bullets, arrowheads): their extent scales like everything else
+        tagged.append(gen.box(len(tg) + 2, 1, "sharp", tg) + r.choice(["o--", "*--o", "-->", " o-- " + tg, "\no--  " + tg + "\n*--> ab"]))
+    # large drawings: the canvas grows without bound (hundreds of rows / columns at the largest scales)
+    big = ["\n".join(["|  |"] * r.randint(230, 420)), "+" + "-" * r.randint(450, 830) + "+", "\n".join("o-- x%d" % i for i in range(250))]
     groups = []
-    tagged_set = set(tagged)
-    for t in corpus + tagged:
+    tagged_set = set(tagged) | set(big)
+    for t in corpus + tagged + big:
         g = [({"input": t, "entry": "settings", "settings": {"scale": 8.0}}, None)]
-        scales = SCALES if tier == "thorough" else (r.sample(SCALES, 2) if t not in tagged_set else [0.5, 1] + r.sample(SCALES[2:], 1))
+        scales = SCALES if tier == "thorough" else (r.sample(SCALES, 2) if t not in tagged_set else [0.5, 1, 37.5] + r.sample(SCALES[2:5], 1))
         for j, s in enumerate(scales):
             g.append(({"input": t, "entry": "settings", "settings": {"scale": s}}, {"kind": "scale", "of": j + 1}))
         groups.append(g)
@@ -386,7 +402,9 @@ LEGENDS = ["# Legend:\na = {fill:red}\n", "# Legend:\nbig = {stroke:blue; fill:n
            "# Legend:\na = {\n  fill: red;\n  stroke: \"x\"\n}\nb = {stroke-width:4}",
            # empty lines inside the legend: after the header, between entries, twice
            "# Legend:\n\na = {fill:red}\n", "# Legend:\na = {fill:red}\n\nb = {stroke:blue}\n",
-           "# Legend:\na = {fill:red}\nb2 = {x:y}\n\n\nc = {stroke:blue}"]
+           "# Legend:\na = {fill:red}\nb2 = {x:y}\n\n\nc = {stroke:blue}",
+           # the header alone (with the variants' trailing blanks it is also the very last line, with and without a line ending)
+           "# Legend:", "# Legend:"]
 
 
 def c17(tier):
@@ -407,7 +425,8 @@ def c17(tier):
         if i % 3 == 0:
             t = t + "\n" + r.choice(LEGENDS)
         elif i % 3 == 1:
-            t = t + '\n "quoted |-+ text" ' + r.choice(["", "一二", "x"])
+            # a quoted string followed by nothing, by a word, or by exactly one character right after the closing quote
+            t = t + r.choice(['\n "quoted |-+ text" ' + r.choice(["", "一二", "x"]), '\n|"a-+b"|', '\n--> "out"*', '\n "q"' + r.choice("|+-x)")])
         g = [({"input": t, "want_style": True}, None)]
         for j in range(2 if tier == "quick" else 4):
             g.append(({"input": eol_variant(r, t, crlf=(j % 2 == 0)), "want_style": True}, {"kind": "eol", "of": j + 1}))
@@ -800,12 +819,19 @@ def c15(tier):
                 if i % 6 == 0 and r.random() < 0.5:
                     pre += "\\"
                 content = "".join(r.choice(content_alpha) for _ in range(r.randint(0, 8))).replace("\\", "/")
+                if r.random() < 0.04:
+                    content = r.choice(["# Legend:", "a # Legend: b", "#Legend", "= {x}"])     # legend-like text is content too
                 wcells = sum(2 if c in gen.WIDE else 1 for c in content)
                 a += pre + '"' + content + '"'
                 b += pre + " " * (wcells + 2)
             post = gen.random_grid(r, r.randint(0, 6), 1, gen.ASCII_DRAW.replace("\\", "") + "ab" + gen.WIDE[:2], 0.6)
             rows_a.append(a + post)
             rows_b.append(b + post)
+            if r.random() < 0.15:
+                # the same row again, directly below (and sometimes once more)
+                for _rep in range(r.randint(1, 2)):
+                    rows_a.append(a + post)
+                    rows_b.append(b + post)
         ta, tb = "\n".join(rows_a), "\n".join(rows_b)
         if "{" in ta or "}" in ta:
             ta, tb = ta.replace("{", "(").replace("}", ")"), tb.replace("{", "(").replace("}", ")")
@@ -835,7 +861,7 @@ def sink_cases(r, n, marker_prefix="mk"):
         if i % 3 == 0:
             # multi-byte characters in front of the payload, in the same run
             pay = r.choice(["éééééééééééé", "привет", "жжжжжжжжж;", "ßßßßßßßßßßßßßßßßßßßß"]) + pay
-        chan = ["plain", "quoted", "tag", "legend_name", "legend_decl"][i % 5]
+        chan = ["plain", "quoted", "tag", "legend_name", "legend_decl", "quoted_tag"][i % 6]
         art = r.choice(["", gen.box(r.randint(2, 8), 1), gen.random_grid(r, 8, 2, "-|+/\\*o. ", 0.5), "o-->"])
         exp_t, exp_s = [], []
         if chan == "plain":
@@ -848,6 +874,12 @@ def sink_cases(r, n, marker_prefix="mk"):
             exp_t = [p]
         elif chan == "tag":
             t = gen.box(len(pay) + 4, 1, "sharp", "{" + pay + "}")
+            exp_t = []
+        elif chan == "quoted_tag":
+            # a tag written inside a quoted string inside a shape, quotes and blanks of the payload backslash-escaped
+            p = pay.replace("\\", "/").replace('"', '\\"').replace(" ", "\\ ").replace("=", "\\=")
+            q = '"{' + p + '}"'
+            t = gen.box(len(q) + 4, 1, "sharp", q)
             exp_t = []
         elif chan == "legend_name":
             t = art + "\n# Legend:\n" + pay + " = {fill:red}\n"
@@ -940,6 +972,13 @@ def c02(tier):
         cases.append(("a\n# Legend:\nk = {" + d + "}\n", "legend", [], [[ord(ch) for ch in d]]))
         # the same class declared twice, the hostile string in the later declaration
         cases.append(("a\n# Legend:\nk = {fill:red}\nj = {x:y}\nk = {" + d + "}\n", "legend", [], [[ord(ch) for ch in d]]))
+    # the name channels: characters that XML cannot carry, markup characters and non-ASCII letters inside a {tag} in a
+    # shape and inside a legend name (a name the grammar accepts becomes a class attribute / a selector verbatim)
+    for c in [0xFFFE, 0xFFFF, 0x1, 0x1b, 0x7f, 0x85, 0xA0, 0xE9, 0x3c, 0x26, 0x22, 0x27, 0xD7FF, 0xE000, 0x10FFFF, 0x4e00, 0x301, 0x200b]:
+        ch = chr(c)
+        cases.append(("+--------+\n| {a" + ch + "} |\n+--------+", "tag", [], []))
+        cases.append(("+--------+\n| {" + ch + "b,c} |\n+--------+", "tag", [], []))
+        cases.append(("+------+\n| {k" + ch + "} |\n+------+\n# Legend:\nk" + ch + " = {fill:red}\n" + ch + "z = {x:y}\n", "legend", [], []))
     reqs = []
     combos = [(a, b, c) for a in (True, False) for b in (True, False) for c in (True, False)]
     for i, (t, chan, _, _) in enumerate(cases):
@@ -1176,7 +1215,8 @@ def c13(tier):
                 "parameters satisfies the independent CircleOracle (radius from the drawing's width, horizontal "
                 "extent, every character within 20 lattice units of the circle) - TLC; each behaviour is replayed; "
                 "code: 22 drawings x %s placements, alone, with unrelated content below, and with one label character in a "
-                "blank cell of the drawing's rows (inside or beside it, not touching it); TLC checks the input is "
+                "blank cell of the drawing's rows (inside or beside it, not touching it), and with many words / quoted strings "
+                "left and right of it on its own rows; TLC checks the input is "
                 "the placed drawing and CircleOracle on the single circle element. every case is non-trivial"
                 % ("a stratified sample of offsets in 0..60 x 0..40" if tier == "quick" else "all offsets 0..60 x 0..40"))
     r = common.rng("C13")
@@ -1232,6 +1272,23 @@ def c13(tier):
                 rows[ly - nn] = rw[:lx] + lch + rw[lx + 1:]
                 cases.append(("\n" * nn + "\n".join(rows), {"idx": idx + 1, "k": k, "n": nn, "extra": 2, "lx": lx, "ly": ly, "lch": ord(lch)}))
                 break
+    # unrelated words left and right of the drawing on its own rows, two or more blank cells away: a row of many
+    # separate words (more groups than any look-back window), a quoted string, also with a zero-width character
+    for j, (idx, k, nn) in enumerate(places):
+        if j % (4 if tier == "quick" else 9):
+            continue
+        D = cat[idx]
+        wmax = max(len(x) for x in D)
+        rows = [(" " * k + x).ljust(k + wmax) for x in D]
+        for y in range(len(rows)):
+            if r.random() < 0.6:
+                rows[y] += "  " + " ".join(r.choice(gen.LABELS) for _ in range(r.choice([3, 18, 25])))
+            if k >= 8 and r.random() < 0.5:
+                left = r.choice(['"e\u0301z"', "ab", '"a b"', "Z z", '"一"'])
+                wcells = sum(2 if common_wide(c) else 1 for c in left)
+                if wcells + 2 <= k:
+                    rows[y] = left + rows[y][wcells:]
+        cases.append(("\n" * nn + "\n".join(x.rstrip() for x in rows), {"idx": idx + 1, "k": k, "n": nn, "extra": 3, "lx": 0, "ly": 0, "lch": 0}))
     obs = observe.observe([{"input": t} for t, _ in cases], tag="C13B")
     for (t, circ), o in zip(cases, obs):
         run.add_event({"props": ["C13"], "rows": o["rows"], "doc": o["doc"], "circ": circ}, {"input": t, "circ": circ})
@@ -1586,7 +1643,10 @@ def c18(tier):
     for i in range(0, len(corpus), 10):
         corpus.append(corpus[i] + "\n" + r.choice([' "quoted |+ text" --', '+-----+\n| {k} |\n+-----+  "q"', ' "一二" ab\n# Legend:\nk = {fill:red}']))
     groups = []
-    cols = ["red", "#00ff00", "rgb(1,2,3)", "blue", "none", "x\"y", "it's"]
+    cols = ["red", "#00ff00", "rgb(1,2,3)", "blue", "none", "x\"y", "it's", "transparent", "currentColor", "white", "", "rgba(0,0,0,0)"]
+    # inputs that begin with an invisible character (a byte order mark is an ordinary cell character), a blank line or a blank
+    for i in range(0, len(corpus), 12):
+        corpus.append(r.choice(["\ufeff", "\u200b", "\n", " ", "\t"]) + corpus[i])
     for t in corpus:
         g = [({"input": t, "want_style": True}, None)]
         j = 1
@@ -1663,6 +1723,13 @@ def hostile_inputs(r, n):
                         rows.append(" " * x + "+--" + ("+" if j < k - 2 else ""))
                         x += 3
                 out.append("\n".join(rows))
+    # degenerate quoted strings, braces and tags INSIDE shapes (what lies in a shape's bounds goes through the
+    # enclosure stage and the tag parser)
+    for q in ['""', '"', '"a', '"" ""', '"{}"', '{}', '{', '}', '{,}', '{a,}', '"\\"', '{"}', '"{a}"', "''", '{ }', '{a b}']:
+        out.append("+--------+\n| " + q.ljust(6) + " |\n+--------+")
+        out.append(".--------.\n| " + q.ljust(6) + " |\n'--------'  " + q)
+        out.append("   _______\n ,'       `.\n/   " + q.ljust(6) + "  \\\n\\           /\n `._______.'")
+        out.append("\\\n \\  " + q + "\n  \\\n   \\")
     chunks = gen.bundled_chunks()
     pool = gen.FULL + gen.LABELS + gen.WIDE + gen.LATIN + "\"{}\\#=:, \t" + "​́\x01\x7f￾" + "\U0001F600\U00020000"
     for i in range(n):
@@ -1710,7 +1777,7 @@ def c01(tier):
                 "whitespace, dense random grids over the full vocabulary, mutated bundled diagrams, unbalanced quotes, "
                 "legend fragments, arbitrary Unicode scalars incl. zero-width/control/non-BMP, deep nesting and long "
                 "runs) goes through each of the five entry points in crash-isolated child processes with scale from "
-                "{1e-30, 0.5, 8, 37.5, 1e30}; the trace specification accepts only outcome Return (a panic, abort, stack "
+                "{1.2e-38, 1e-30, 0.5, 8, 37.5, 1e30, 1e38, 3e38, 3.4e38}; the trace specification accepts only outcome Return (a panic, abort, stack "
                 "overflow or a run beyond L(n) = 10 s + 2 s (n/1000)^2 is a violation) and requires that no greedy pass "
                 "grew its list (hook counters). non-trivial = non-empty input; distinct by (input, entry, scale)")
     r = common.rng("C01")
@@ -1729,7 +1796,8 @@ def c01(tier):
                "\n".join(" " * i + "+" + "-" * (2 * (60 - i)) + "+" for i in range(0, 60))]
     texts += big
     cases = []
-    scales = [1e-30, 0.5, 8.0, 37.5, 1e30]
+    # finite positive scales from the smallest to just below the largest f32 (at the top lengths overflow to inf)
+    scales = [1e-30, 0.5, 8.0, 37.5, 1e30, 1e38, 3e38, 3.4e38, 1.2e-38]
     for i, t in enumerate(texts):
         ents = ENTRIES if tier == "thorough" or i < 80 else [ENTRIES[i % 5], ENTRIES[(i // 5 + 2) % 5]]
         for e in ents:
@@ -1793,6 +1861,18 @@ def c07(tier):
         if s:
             rq["settings"] = s
         reqs.append(rq)
+    # the same inputs under settings that differ in one cosmetic field only (whatever is remembered from the call before
+    # must not depend on a subset of the settings), and legends with a class declared more than once among others
+    cosmetic = [{"font_size": 20}, {"font_size": 9}, {"stroke_width": 4.0}, {"fill_color": "red"}, {"background": "black"},
+                {"stroke_color": "blue"}, {"font_family": "serif"}, {"include_backdrop": False}, {"include_defs": False}]
+    legends = ["ab --> *\n# Legend:\na = {x:1}\nb = {y:2}\nc = {z:3}\na = {w:4}\nd = {v:5}\n",
+               gen.box(10, 1, "sharp", "{a,b}") + "\n# Legend:\nb = {fill:red}\na = {fill:blue}\nb = {stroke:green}\nc1 = {x:y}\nc2 = {x:z}\n"]
+    for t in corpus[:12] + legends:
+        for s_ in [None] + cosmetic:
+            rq = {"id": len(reqs), "input": t, "entry": "settings" if s_ else "to_svg"}
+            if s_:
+                rq["settings"] = s_
+            reqs.append(rq)
     keyof = {rq["id"]: "%d|%s|%d" % (rq["id"], rq["entry"], rq["id"] % 3) for rq in reqs}
     # the thread corpus starts with inputs that force every lazy table (circles, quarter / half / three-quarter
     # arcs, Unicode glyphs), so that the first calls of racing threads initialise them concurrently
@@ -1947,6 +2027,8 @@ def c19(tier):
     texts = [t for t in pool if t.strip() and not t.startswith("-") and "\\n" not in t and "\x00" not in t
              and not t.lstrip().startswith("-")]
     texts += ["+--+\n|ab|\n+--+", "o-->*", gen.box(5, 1, "round", "{a}") + "\n# Legend:\na = {fill:red}"]
+    # a backslash followed by a letter other than n is two ordinary characters in every input mode
+    texts += ["a\\tb", "\\to\n \\", "x\\ty \\r \\0", "\\ \\t\n \\"] * 3
     convert, convert_many = lib_converter()
     work = os.path.join(common.rundir(), "cli")
     os.makedirs(work, exist_ok=True)
@@ -2034,7 +2116,12 @@ def c20(tier):
     ver = _re.search(r'^version\s*=\s*"([^"]+)"', toml, _re.M).group(1)
     hello_sha = shells.sha(("%s %s" % (name, ver)).encode())
     r = common.rng("C20")
+    LIMIT = 2 * 1024 * 1024          # the framework's default body limit: bodies up to it are converted, larger ones refused
+    small = "+--+\n|ab|\n+--+\n"
     corpus = [t for t in gen.mixed_corpus(r, 120)] + ["", " ", "<script>alert(1)</script>", "</svg>", "a\n# Legend:\na={x}",
+                                                     "a \ufffd b", "\ufffd", "+-\ufffd-+ \ufeff",      # valid UTF-8 that merely looks like a decoding error
+                                                     small + " " * (LIMIT - len(small)), small + " " * (LIMIT - len(small) - 1),
+                                                     small + " " * (2000001 - len(small)), small + " " * (2 * 1000 * 1024 - len(small)),
                                                      gen.random_grid(r, 150, 120, "-|+.' ab", 0.7)[:20000]]
     convert, convert_many = lib_converter()
     convert_many([(t, {}) for t in corpus])
@@ -2074,6 +2161,10 @@ def c20(tier):
             evs.append({"client": cid, "seq": n, "class": "get", "status": st, "body_sha": shells.sha(body), "want_sha": hello_sha})
             return evs
         events += client(0, nreq)            # sequential phase
+        # every special body once, deliberately: U+FFFD in valid UTF-8, and bodies just below and exactly at the limit
+        for k_, t in enumerate([x for x in corpus if "\ufffd" in x or len(x) > 1900000]):
+            st, body = shells.http_request(srv.port, "POST", "/", t.encode("utf-8"), timeout=120)
+            events.append({"client": 0, "seq": 5000 + k_, "class": "post_ok", "status": st, "body_sha": shells.sha(body), "want_sha": lib_sha[t]})
         with ThreadPoolExecutor(max_workers=nclients) as ex:
             for evs in ex.map(lambda c: client(c, nreq), range(1, nclients + 1)):
                 events += evs
